@@ -212,6 +212,22 @@ CHECKS["C05"] = dict(
     technique="Coq proof (Q + nsatz for invariants, R/Coquelicot for the Weibull laws) + generated tables + metamorphic differential runs",
     design="4/C05")
 
+CHECKS["C15"] = dict(
+    text="Theorems about a Gallina model of the strain bookkeeping at a quadrature point, with the update expressions, the "
+         "sub-increment fractions and the dump/copy tables regenerated from structural.py on every run: the code's thermal "
+         "update is the trapezoidal step on the diagonal and the identity off it; total = mechanical + thermal; symmetric "
+         "tensors; no thermal strain where the temperature never changed; alpha*(T-T0) for a constant and the closed form for "
+         "an affine coefficient, for every history; stored results are a scan, so the first k of them depend on the first k "
+         "inputs only; sub-increments change nothing when the trapezoidal rule is exact for the coefficient (and do otherwise: "
+         "refuted); zero stress iff the strain equals the thermal strain (Hooke, positive moduli).  Tied to the code by "
+         "evaluating the model on the stored quadrature temperatures of real PythonTubeSolver runs (1D/2D/3D) and by "
+         "differential runs: altered future, truncation, trial solves, refined steps, forced sub-increments, free expansion.",
+    note="partial: the finite-element solve (scikit-fem, NEML) is run, not modelled; step-subdivision independence of the whole "
+         "state is proved for the thermal strain and checked on the implementation for elastic tubes with constant/affine "
+         "coefficients; inelastic materials are outside this property.",
+    technique="Coq proof (induction over histories, Q) + generated expressions/tables + vm_compute correspondence + differential runs",
+    design="4/C15")
+
 NOT_YET = {}
 
 def main():
